@@ -175,7 +175,7 @@ class Model:
                 'correct': a.get('correct'), 'score': a.get('score'), 'category': a.get('category'),
                 'scores': list(a.get('_scores', []))}
 
-    def run_driver(self, resolve_fn, cfgs, ranks, with_ignored=True, then=None, plain=False):
+    def run_driver(self, resolve_fn, cfgs, ranks, with_ignored=True, then=None, plain=False, keyword=False):
         """Abstractly run a resolver module's resolve(report, priority_key) on a small report; the key function is a
         symbolic rank. Returns the result dict (or, for the sectional resolver, that of the only group)."""
         fd, final0 = self.new_final({}, {})
@@ -194,6 +194,13 @@ class Model:
         report = Obj('report', **base_attrs)
         report.attrs['method:finalize_feedbacks'] = lambda: None
         report.attrs['method:execute_hooks'] = lambda *a, **k: None
+        # the global report is another, empty report: a resolver asked about `report` that answers for MAIN_REPORT
+        # says "no errors"
+        main_attrs = {k: (type(v)() if isinstance(v, (list, dict, set)) else v) for k, v in base_attrs.items()}
+        main_attrs.update(resolves=[], result=None)
+        self._main_report = Obj('MAIN_REPORT', **main_attrs)
+        self._main_report.attrs['method:finalize_feedbacks'] = lambda: None
+        self._main_report.attrs['method:execute_hooks'] = lambda *a, **k: None
         finals = []
 
         def fresh_final(rep):
@@ -206,23 +213,28 @@ class Model:
 
         def b_isinstance(o, t):
             ts = t if isinstance(t, tuple) else (t,)
-            return any(isinstance(x, str) and isinstance(o, Obj) and o._name == x for x in ts) or \
+            # (a pedal class used as a value - `isinstance(argument, Report)` - names the model object of that class)
+            ts = tuple(getattr(getattr(x, '_fd_class', None), 'name', x) for x in ts)
+            return any(isinstance(x, str) and isinstance(o, Obj) and o._name.lower() == x.lower() for x in ts) or \
                 any(isinstance(x, type) and not isinstance(o, Obj) and isinstance(o, x) for x in ts)
         fd.calls['isinstance'] = b_isinstance
         inner_resolver = fd.resolver
-        fd.resolver = lambda n: 'FinalFeedback' if n == 'FinalFeedback' else inner_resolver(n)
+        main_report = self._main_report
+        fd.resolver = lambda n: 'FinalFeedback' if n == 'FinalFeedback' else (
+            main_report if n == 'MAIN_REPORT' else inner_resolver(n))
         fd.methods['merge'] = lambda recv, fb: recv.attrs['__fd__'].call_function(self.merge_fn, [fb], bound_self=recv)
         fd.methods['finalize'] = lambda recv: recv.attrs['__fd__'].call_function(self.finalize_fn, [], bound_self=recv)
         key = lambda fb: fb.attrs['__rank__']
         try:
             resolver = self.decorated(fd, resolve_fn)
             # plain: the form scripts and environments use - resolve(report) with the resolver's own default key
-            out = resolver(report) if plain else resolver(report, key)
+            # keyword: the form batch graders use for a report of their own - resolve(report=r)
+            out = resolver(report=report) if keyword else (resolver(report) if plain else resolver(report, key))
             if then is not None:
                 # the same report is resolved again after its visibility changed (an environment resolves on exit
                 # although the script already did; an instructor mutes or suppresses something in between)
                 then(fbs, report)
-                out = resolver(report) if plain else resolver(report, key)
+                out = resolver(report=report) if keyword else (resolver(report) if plain else resolver(report, key))
         except Raised as r:
             return ('raised', r.kind, r.detail)
         except Inconclusive as e:
@@ -274,8 +286,10 @@ class Model:
             if not (isinstance(target, tuple) and target and target[0] == 'func'):
                 raise Inconclusive('driver: decorator %s of resolve() does not resolve to a pedal function' % (
                     name or ast.unparse(deco)))
-            main = Obj('MAIN_REPORT', result=None)
-            main.attrs['method:execute_hooks'] = lambda *a, **k: None
+            main = getattr(self, '_main_report', None)
+            if main is None:
+                main = Obj('MAIN_REPORT', result=None)
+                main.attrs['method:execute_hooks'] = lambda *a, **k: None
             saved = fd.resolver
 
             def with_main(n, saved=saved, main=main):
